@@ -2654,6 +2654,14 @@ impl DcpsDomainParticipant {
 
         let prefix = Guid::from(<[u8; 16]>::from(*handle)).prefix();
 
+        // The endpoints of the removed participant are not discovered anymore: they must not be matched again
+        self.domain_participant
+            .discovered_reader_list
+            .retain(|r| r.reader_proxy.remote_reader_guid.prefix() != prefix);
+        self.domain_participant
+            .discovered_writer_list
+            .retain(|w| w.writer_proxy.remote_writer_guid.prefix() != prefix);
+
         for subscriber in &mut self.domain_participant.user_defined_subscriber_list {
             for data_reader in &mut subscriber.data_reader_list {
                 // Remove samples
@@ -2671,24 +2679,32 @@ impl DcpsDomainParticipant {
                     data_reader
                         .transport_reader
                         .delete_matched_writer(key.into());
+                    // Keep the matched list and the subscription matched status in step
+                    data_reader.remove_matched_publication(&InstanceHandle::new(key));
                 }
             }
         }
 
         for publisher in &mut self.domain_participant.user_defined_publisher_list {
             for data_writer in &mut publisher.data_writer_list {
-                for matched_subscription in &data_writer.matched_subscription_list {
-                    if matched_subscription.key.value[..12] == prefix {
-                        // Remove readers
-                        data_writer
-                            .writer
-                            .transport_writer
-                            .delete_matched_reader(matched_subscription.key.value.into());
-                    }
-                }
-                data_writer
+                let removed_reader_guids: Vec<_> = data_writer
                     .matched_subscription_list
-                    .retain(|subscription| subscription.key.value[..12] != prefix);
+                    .iter()
+                    .filter(|m| m.key.value[..12] == prefix)
+                    .map(|m| m.key.value)
+                    .collect();
+                for key in removed_reader_guids {
+                    // Remove readers
+                    data_writer
+                        .writer
+                        .transport_writer
+                        .delete_matched_reader(key.into());
+                    // Keep the matched list and the publication matched status in step
+                    data_writer.remove_matched_subscription(&InstanceHandle::new(key));
+                    data_writer
+                        .status_condition
+                        .add_communication_state(StatusKind::PublicationMatched);
+                }
                 // The removed readers might have been the only ones with unacknowledged changes
                 data_writer.notify_acknowledgments_if_all_acknowledged();
             }
